@@ -234,8 +234,11 @@ def _ident(pkg, index):
     return t
 
 
-def resolve(uni, targets, kind, trees=None):
-    """-> dict(outcome='crash'|'fail'|'ok', ops=[...], exc=str)"""
+def resolve(uni, targets, kind, trees=None, flow="atoms"):
+    """-> dict(outcome='crash'|'fail'|'ok', ops=[...], exc=str).  flow: 'atoms' = one add_atoms(targets) call;
+    'seq' = one add_atom call per target through the same resolver, stopping at the first failure; 'retry' = pmerge's
+    --ignore-failures loop: on failure drop the failed target, reset() the same resolver and add_atoms the rest
+    (res['resolved'] = the targets finally resolved, outcome 'fail' only if none is left)."""
     from pkgcore.ebuild import resolver
     from pkgcore.ebuild.atom import atom
 
@@ -246,7 +249,28 @@ def resolve(uni, targets, kind, trees=None):
         res["stage"] = "construct"
         r = getattr(resolver, fname)([vdb], [src], verify_vdb=verify, resolver_cls=_counting_cls(empty))
         res["stage"] = "resolve"
-        ret = r.add_atoms([atom(t) for t in targets])
+        res["resolved"] = list(targets)
+        if flow == "atoms":
+            ret = r.add_atoms([atom(t) for t in targets])
+        elif flow == "seq":
+            ret = ()
+            for t in targets:
+                ret = r.add_atom(atom(t))
+                if ret:
+                    break
+        elif flow == "retry":
+            left = list(targets)
+            ret = r.add_atoms([atom(t) for t in left])
+            while ret and left:
+                failed = str(ret[0][0])
+                if failed not in left:
+                    raise RuntimeError(f"failed restriction {failed!r} is not one of the targets {left}")
+                left.remove(failed)
+                r.reset()
+                ret = r.add_atoms([atom(t) for t in left]) if left else ((None,),)
+            res["resolved"] = left
+        else:
+            raise ValueError(flow)
         res["stage"] = "read-plan"
         for op in r.state.iter_ops(True):
             o = [op.desc, list(_ident(op.pkg, index))]
@@ -321,6 +345,13 @@ Y_MENU = ["a/z", "a/x", ">=a/x-2", "|| ( a/z a/x )", "!a/z", "!!<a/x-2"]
 SMALL_X = ["a/y", "!a/z", "|| ( a/z a/y )"]
 SMALL_Y = ["a/z", "a/x", "!!a/z"]
 SMALL_Z = ["a/y", "a/x", "!<a/x-2"]
+# F5: one blocker atom carried by two packages, the second holder (y-2) abandoned because of a missing dependency
+SHARED_X = ["!!a/z a/y", "!a/z a/y"]
+SHARED_Y = ["!!a/z a/w", "!a/z a/w"]
+# F6: a candidate (x-2) whose dependencies resolve but whose insertion an already planned package (z-1) refuses
+REFUSE_Z = [{"RDEPEND": "!!>=a/x-2"}, {"DEPEND": "!>=a/x-2"}]
+REFUSED_X = ["a/y", "|| ( a/w a/y )"]
+REFUSED_Y = [">=a/x-2", "a/x"]
 
 INST_ALL = [list(c) for r in range(4) for c in itertools.combinations(["x", "y", "z"], r)]
 INST_Q = [[], ["x"], ["z"], ["x", "y", "z"]]
@@ -373,8 +404,21 @@ def some_class(menu, classes):
     return [{}] + [{c: m} for c in classes for m in menu]
 
 
+def extra_families():
+    out = []
+    for d in one_class(SHARED_X)[1:]:
+        for e in one_class(SHARED_Y)[1:]:
+            out.append(("F5", {}, d, e, "0", {}, "q", False, [["a/x", "a/z"]]))
+    for g in REFUSE_Z:
+        for d in one_class(REFUSED_X)[1:]:
+            for e in one_class(REFUSED_Y)[1:]:
+                out.append(("F6", {}, d, e, "0", g, "q", False, [["a/z", "a/x"]]))
+    return out
+
+
 def family(tier):
-    """-> list of (family name, dx1, dx2, dy2, sx2, dz1, inst-list-name, mirror)  (fixed, ordered, finite; simplest first)."""
+    """-> list of (family name, dx1, dx2, dy2, sx2, dz1, inst-list-name, mirror[, target lists])  (fixed, ordered, finite;
+    simplest first)."""
     out = []
     if tier == "quick":
         for d in one_class(X_MENU):
@@ -387,7 +431,7 @@ def family(tier):
         for f in one_class(SMALL_X)[1:]:
             for d in some_class(SMALL_X, X3):
                 out.append(("F4", f, d, {}, "0", {}, "all", True))
-        return out
+        return out + extra_families()
     for sx2 in ("0", "1"):
         for d in two_class(X_MENU):
             out.append(("F1", {}, d, {}, sx2, {}, "all", False))
@@ -403,7 +447,7 @@ def family(tier):
     for f in one_class(X_MENU)[1:]:
         for d in one_class(SMALL_X):
             out.append(("F4", f, d, {}, "0", {}, "all", True))
-    return out
+    return out + extra_families()
 
 
 def dims(tier):
@@ -431,12 +475,13 @@ def cases_of(tier, lo, hi, fam=None):
     fam = fam if fam is not None else family(tier)
     targets, kinds = dims(tier)
     for i in range(lo, hi):
-        fname, dx1, dx2, dy2, sx2, dz1, il, mirror = fam[i]
+        fname, dx1, dx2, dy2, sx2, dz1, il, mirror = fam[i][:8]
+        tg = fam[i][8] if len(fam[i]) > 8 else targets
         for inst in INST_ALL if il == "all" else INST_Q:
             uni = mk_uni(dx1, dx2, dy2, sx2, dz1, inst, mirror)
             if mirror and not installed_consistent(uni):
                 continue
-            yield fname, uni, targets, kinds
+            yield fname, uni, tg, kinds
 
 
 def work(task):
